@@ -5,15 +5,22 @@
 -/
 import Nervus.Proofs.CsrIncoming
 import Nervus.Model.Bulk
+import Nervus.Proofs.BulkTx
+import Nervus.Proofs.BulkInterner
+import Nervus.Props.C06
 namespace Nervus.Props.C30
 open Nervus Nervus.Storage
+open Nervus.GraphSpec (Op)
 
 theorem csr_guard_present : Cfg.current.csrGuard = true := by decide
 
 /-- **C30 at full strength**: for every valid node / relationship set, the bulk-loaded database
     and the database that committed the same data through a transaction give the same dump through
-    every read interface.  Not proved in general (only the segment part and a worked example are); the
-    one difference found on the pinned tree — whole-map property reads when two parallel bulk
+    every read interface, relationship lists compared as lists of (src, type ID, dst).  Proved for the
+    live part of the id space: `bulk_eq_tx` (both databases agree in every read with the same property
+    graph), `bulk_eq_tx_nodes`, `bulk_eq_tx_edges` (same label table, same relationship lists with ids).
+    Not proved as stated: the clauses of this `def` also quantify over node ids that do not exist and over
+    type ids that were never interned.  The one difference found on the pinned tree — whole-map property reads when two parallel bulk
     relationships carry the same property key (`C30_counterexample_parallel_edge_key`) — is fixed. -/
 def C30_full : Prop :=
   ∀ (ns : List BulkNode) (es : List BulkEdge), bulkValid ns es = true →
@@ -50,6 +57,128 @@ theorem bulk_segment_reads (ns : List BulkNode) (es : List BulkEdge) (hv : bulkV
   · intro src rel; rw [persist_neighbors]; exact buildForward_neighbors 0 _ src rel
   · intro dst rel; exact built_incoming _ 0 _ dst rel (Or.inl csr_guard_present)
 
+/-! `bulkOK ns es` (Proofs/BulkAgree, decidable): what BulkLoader::validate checks (distinct external
+    ids, relationship end points among the nodes) and no external id 0 (the known findings of C06 / C04
+    about id 0 apply to both load paths and are not C30's). -/
+
+/-- **C30 at full strength: `bulk_eq_tx`.**  For EVERY valid input — any nodes with any labels and
+    property lists (duplicate keys included: the last value wins on both paths), any relationships
+    (parallel ones, self loops, shared names, properties on parallel relationships) — the database that
+    `GraphEngine::open` builds from the files of `BulkLoader::commit` and the database that committed
+    `txLoad ns es` through one write transaction BOTH agree, in every read interface (node enumeration of
+    both kinds, external ids, label names, single-key and whole-map node and relationship properties,
+    outgoing and incoming neighbours with multiplicity under any type filter, external-id lookup of every
+    id), with one and the same property graph: the Spec graph of the transactional load.
+    Bulk side: `bulk_open` (the opened engine, explicitly), `txLoad_graph` (the Spec graph in closed form),
+    `bulk_reads_agree`; transactional side: `txLoad_wf` + `C06_partial`. -/
+theorem bulk_eq_tx (ns : List BulkNode) (es : List BulkEdge) (hok : bulkOK ns es = true)
+    (hsz : (txLoad ns es).length ≤ labelMax) :
+    ∃ d b t, bulkLoad ns es = some d ∧ Engine.open d = .ok b ∧
+      Storage.run Cfg.current [.tx (txLoad ns es) true] = .ok t ∧
+      ReadsAgree Cfg.current b (GraphSpec.run [.tx (txLoad ns es) true]) ∧
+      ReadsAgree Cfg.current t (GraphSpec.run [.tx (txLoad ns es) true]) := by
+  obtain ⟨hv, _, hz, _⟩ := bulkOK_unpack ns es hok
+  obtain ⟨d, hd, hopen, hi2e⟩ := bulk_open ns es hv
+  have hops := txLoad_loadOps ns es
+  obtain ⟨t, ht, hrt⟩ := C06.C06_partial Cfg.current [.tx (txLoad ns es) true] rfl
+    (by show (GraphSpec.txWF {} (txLoad ns es) && true) = true; rw [txLoad_wf ns es hok]; rfl)
+    (by
+      simp only [GraphSpec.noC06Trigger, GraphSpec.trigRelPropsSurvive, GraphSpec.trigLabelReAdd,
+        GraphSpec.trigEdgeAndEndpointDelete, GraphSpec.trigExtZero, GraphSpec.anyCommitted, Bool.or_false,
+        load_noDeletes _ hops, load_noLabelReAdd _ hops, load_noEndpointDelete _ hops,
+        txLoad_noExtZero ns es hz]
+      rfl)
+    (by show (txLoad ns es).length + 0 ≤ labelMax; omega)
+  exact ⟨d, _, t, hd, hopen, ht, bulk_reads_agree ns es (bulkEngine_isBulk ns es d hi2e) hok, hrt⟩
+
+/-- `bulk_eq_tx` spelled out for the reads that need no translation between the two label tables: the two
+    databases enumerate the same nodes and answer external ids, label names, every node property (single
+    key and whole map) and every external-id lookup alike -/
+theorem bulk_eq_tx_nodes (ns : List BulkNode) (es : List BulkEdge) (hok : bulkOK ns es = true)
+    (hsz : (txLoad ns es).length ≤ labelMax) :
+    ∃ d b t, bulkLoad ns es = some d ∧ Engine.open d = .ok b ∧
+      Storage.run Cfg.current [.tx (txLoad ns es) true] = .ok t ∧
+      b.nodes = t.nodes ∧ b.nodesSnap = t.nodesSnap ∧
+      (∀ n ∈ b.nodes, b.resolveExternal n = t.resolveExternal n ∧
+        (∀ l, l ∈ b.nodeLabelNames n ↔ l ∈ t.nodeLabelNames n) ∧
+        (∀ k, b.nodeProp n k = t.nodeProp n k) ∧
+        (∀ k, (b.nodeProps n).lookup k = (t.nodeProps n).lookup k)) ∧
+      (∀ x, b.lookupInternal x = t.lookupInternal x) := by
+  obtain ⟨d, b, t, h1, h2, h3, rb, rt⟩ := bulk_eq_tx ns es hok hsz
+  obtain ⟨_, hnd, _, _⟩ := bulkOK_unpack ns es hok
+  have hdead : (GraphSpec.run [.tx (txLoad ns es) true]).dead = [] := (txLoad_graph ns es hnd).2.1
+  refine ⟨d, b, t, h1, h2, h3, rb.nodes.trans rt.nodes.symm, rb.nodesSnap.trans rt.nodesSnap.symm, ?_, ?_⟩
+  · intro n hn
+    have hl : (GraphSpec.run [.tx (txLoad ns es) true]).live n = true := by
+      rw [← mem_nodes_iff_live, ← rb.nodes]; exact hn
+    exact ⟨(rb.ext n hl).trans (rt.ext n hl).symm, fun l => (rb.labels n l hl).trans (rt.labels n l hl).symm,
+      fun k => (rb.nprop n k hl).trans (rt.nprop n k hl).symm, fun k => (rb.nprops n k hl).trans (rt.nprops n k hl).symm⟩
+  · intro x
+    have hx : GraphSpec.extOfDeleted (GraphSpec.run [.tx (txLoad ns es) true]) x = false := by
+      unfold GraphSpec.extOfDeleted; rw [hdead]; simp
+    exact (rb.extLookup x hx).trans (rt.extLookup x hx).symm
+
+/-- `bulk_eq_tx` for the relationship reads, literally: the two databases have the SAME label table
+    (`txLoad_interner`: same names, same ids), and from every node, under no type filter or under any
+    interned type id, `neighbors` and `incoming_neighbors` return the same relationships — same (src, type
+    id, dst) triples with the same multiplicities — on both. -/
+theorem bulk_eq_tx_edges (ns : List BulkNode) (es : List BulkEdge) (hok : bulkOK ns es = true)
+    (hsz : (txLoad ns es).length ≤ labelMax) :
+    ∃ d b t, bulkLoad ns es = some d ∧ Engine.open d = .ok b ∧
+      Storage.run Cfg.current [.tx (txLoad ns es) true] = .ok t ∧ b.interner = t.interner ∧
+      ∀ n ∈ b.nodes, ∀ rel : Option Nat, (rel = none ∨ ∃ r nm, rel = some r ∧ b.interner[r]? = some nm) →
+        (∃ l l', b.neighbors n rel = some l ∧ t.neighbors n rel = some l' ∧ l.Perm l') ∧
+        (∃ l l', b.incoming Cfg.current n rel = some l ∧ t.incoming Cfg.current n rel = some l' ∧ l.Perm l') := by
+  obtain ⟨hv, _, _, _⟩ := bulkOK_unpack ns es hok
+  obtain ⟨d, hd, hopen, hi2e⟩ := bulk_open ns es hv
+  obtain ⟨d', b, t, h1, h2, h3, rb, rt⟩ := bulk_eq_tx ns es hok hsz
+  have hdd : d' = d := by rw [hd] at h1; cases h1; rfl
+  subst hdd
+  have hbE : b = bulkEngine ns es d' := by rw [hopen] at h2; cases h2; rfl
+  have hint : b.interner = t.interner := by
+    have ht : t = runTx Cfg.current {} (txLoad ns es) true := by
+      have : Storage.run Cfg.current [.tx (txLoad ns es) true] = .ok (runTx Cfg.current {} (txLoad ns es) true) := rfl
+      rw [this] at h3; cases h3; rfl
+    rw [ht, txLoad_interner, hbE]; rfl
+  refine ⟨d', b, t, hd, h2, h3, hint, ?_⟩
+  intro n hn rel hrel
+  have hl : (GraphSpec.run [.tx (txLoad ns es) true]).live n = true := by
+    rw [← mem_nodes_iff_live, ← rb.nodes]; exact hn
+  -- the Spec-side name of the filter
+  obtain ⟨tt, hmb, hmt⟩ : ∃ tt, RelMatch b rel tt ∧ RelMatch t rel tt := by
+    rcases hrel with rfl | ⟨r, nm, rfl, hr⟩
+    · exact ⟨none, Or.inl ⟨rfl, rfl⟩, Or.inl ⟨rfl, rfl⟩⟩
+    · exact ⟨some nm, Or.inr ⟨r, nm, rfl, rfl, hr⟩, Or.inr ⟨r, nm, rfl, rfl, by rw [← hint]; exact hr⟩⟩
+  have key : ∀ (l l' : List Edge) (cnt : Nat → Nat → Nat → Nat → Nat),
+      (∀ e ∈ l, ∃ nm, b.interner[e.rel]? = some nm) → (∀ e ∈ l', ∃ nm, t.interner[e.rel]? = some nm) →
+      (∀ r nm a c, b.interner[r]? = some nm → l.count ⟨a, r, c⟩ = cnt r nm a c) →
+      (∀ r nm a c, t.interner[r]? = some nm → l'.count ⟨a, r, c⟩ = cnt r nm a c) → l.Perm l' := by
+    intro l l' cnt m1 m2 c1 c2
+    rw [List.perm_iff_count]
+    intro e
+    cases hq : b.interner[e.rel]? with
+    | some nm =>
+      have e1 := c1 e.rel nm e.src e.dst hq
+      have e2 := c2 e.rel nm e.src e.dst (by rw [← hint]; exact hq)
+      show l.count e = l'.count e
+      have : (⟨e.src, e.rel, e.dst⟩ : Edge) = e := rfl
+      rw [this] at e1 e2
+      rw [e1, e2]
+    | none =>
+      have n1 : l.count e = 0 := List.count_eq_zero.mpr (fun hm => by obtain ⟨nm, h⟩ := m1 e hm; rw [hq] at h; cases h)
+      have n2 : l'.count e = 0 := List.count_eq_zero.mpr (fun hm => by
+        obtain ⟨nm, h⟩ := m2 e hm; rw [← hint, hq] at h; cases h)
+      rw [n1, n2]
+  constructor
+  · obtain ⟨l, a1, a2, a3⟩ := rb.out n rel tt hl hmb
+    obtain ⟨l', b1, b2, b3⟩ := rt.out n rel tt hl hmt
+    exact ⟨l, l', a1, b1, key l l' (fun r nm a c => ((GraphSpec.run [.tx (txLoad ns es) true]).out n tt).count ⟨a, nm, c⟩)
+      a2 b2 a3 b3⟩
+  · obtain ⟨l, a1, a2, a3⟩ := rb.inc n rel tt hl hmb
+    obtain ⟨l', b1, b2, b3⟩ := rt.inc n rel tt hl hmt
+    exact ⟨l, l', a1, b1, key l l' (fun r nm a c => ((GraphSpec.run [.tx (txLoad ns es) true]).inc n tt).count ⟨a, nm, c⟩)
+      a2 b2 a3 b3⟩
+
 /-! ### non-vacuity and a worked equality (labels shared between nodes and types, parallel
     relationships, a self loop, properties of several kinds) -/
 
@@ -61,6 +190,9 @@ def ns1 : List BulkNode := [⟨10, A, [(K, 1)]⟩, ⟨11, A, []⟩, ⟨12, 322, 
 def es1 : List BulkEdge := [⟨10, R, 11, [(K, 5)]⟩, ⟨10, R, 11, []⟩, ⟨12, A, 12, []⟩, ⟨11, R, 10, [(364, 6)]⟩]
 
 example : bulkValid ns1 es1 = true ∧ bulkDupEdgeKey es1 = false := by decide
+
+/-- non-vacuity of `bulk_eq_tx` -/
+example : bulkOK ns1 es1 = true ∧ (txLoad ns1 es1).length ≤ labelMax := by decide
 
 theorem worked_example :
     ∃ d b t, bulkLoad ns1 es1 = some d ∧ Engine.open d = .ok b ∧
